@@ -270,6 +270,8 @@ func (m c05) one(c *core.Ctx, input []byte, opt c05opt, class string) (reached b
 		if _, _, err := ev.Run(context.Background(), []byte("b := f(2)\nconst k = 7\nm.inc()")); err != nil {
 			return nil, fmt.Errorf("session setup: %w", err)
 		}
+		// a fragment that imports modules and then FAILS to compile: its leftovers must not break later compiles
+		_, _, _ = ev.Run(context.Background(), []byte("m0 := import(\"mod0\")\nm1 := import(\"mod1\")\nfl := -0.0\nq := someUndefinedName"))
 		// compile-only is not exposed: running a fragment could loop forever, so prefix a return
 		_, bc, err := ev.Run(context.Background(), append([]byte("return\n"), src...))
 		return bc, err
